@@ -195,10 +195,17 @@ def _gc_facts(keep):
         except (OSError, ValueError):
             pass
         (mine if root == REPO else other).append(e)
+    def mtime(e):
+        # another process may be finishing or collecting the same directory (temporary extraction dirs vanish)
+        try:
+            return os.path.getmtime(e)
+        except OSError:
+            return now
+
     for lst, n in ((mine, 3), (other, 8)):
-        lst.sort(key=os.path.getmtime, reverse=True)
+        lst.sort(key=mtime, reverse=True)
         for e in lst[n:]:
-            if now - os.path.getmtime(e) > 600:
+            if now - mtime(e) > 600:
                 shutil.rmtree(e, ignore_errors=True)
 
 
